@@ -829,7 +829,11 @@ func substSpec(e SExpr, sub map[string]SExpr) SExpr {
 		for _, b := range x.Vars {
 			delete(ns, b.Name)
 		}
-		return &SQuant{x.Forall, x.Vars, substSpec(x.Body, ns)}
+		var pats []SExpr
+		for _, pe := range x.Pats {
+			pats = append(pats, substSpec(pe, ns))
+		}
+		return &SQuant{x.Forall, x.Vars, substSpec(x.Body, ns), pats}
 	case *SLet:
 		ns := map[string]SExpr{}
 		for k, v := range sub {
